@@ -3,6 +3,8 @@ package keeper
 import (
 	"context"
 
+	"cosmossdk.io/core/comet"
+
 	"cosmossdk.io/math"
 	"errors"
 
@@ -121,3 +123,8 @@ func vhLockingDue(h *vrt.H, n int, nonce uint64) []*ethtypes.Transaction {
 }
 
 type ethTxT = ethtypes.Transaction
+
+type (
+	cometEvidenceList = comet.EvidenceList
+	cometCommitInfo   = comet.CommitInfo
+)
